@@ -26,12 +26,13 @@ class InvCtx:
 
 class Inv:
     def __init__(s, name, qf=None, foralls=(), conts=(), dicts=(), fields=(), vars=(), var_types=None, setup=None,
-                 ghost_havoc=None, axioms=()):
+                 ghost_havoc=None, axioms=(), defs=None):
         s.name, s.qf, s.foralls, s.conts, s.dicts, s.fields, s.vars = name, qf, list(foralls), list(conts), list(dicts), list(fields), list(vars)
         s.var_types = var_types or {}
         s.setup = setup            # fn(ctx) run once at loop entry (may record ghost values in ctx.extra)
         s.ghost_havoc = ghost_havoc  # fn(ctx) -> None: havoc ghost state carried in p.ghost
         s.axioms = list(axioms)
+        s.defs = defs              # fn(ctx) -> Bool: defining instances of ghost spec functions, ASSUMED at the loop head
 
 
 class StmtMixin(CallMixin):
@@ -581,6 +582,10 @@ class StmtMixin(CallMixin):
         ctx = InvCtx(s, p, H0, env0, **ctx_kwargs)
         if inv.qf is not None:
             p.pc.append(inv.qf(ctx))
+        if inv.defs is not None:
+            d = inv.defs(ctx)
+            if d is not None:
+                p.pc.append(d)
         H1 = ctx.H
         env1 = dict(p.env)
         for label, fn in inv.foralls:
